@@ -289,6 +289,14 @@ impl HistCheck {
             }
             texts.insert(s.key.clone(), s.text.clone());
         }
+        // the editor also tells the server about documents that are not notes (a file next to the library, an unsaved
+        // buffer, a text file inside the library): a server started on the library's files knows nothing of them
+        let first = texts.keys().next().cloned().unwrap_or_default();
+        for uri in ["file:///elsewhere/README.md".to_string(), "untitled:Untitled-1".to_string(), format!("{}todo.txt", inc.uri("x").trim_end_matches("x.md"))] {
+            let text = format!("# not a note\n\nsee [it]({})\n", first);
+            inc.notify("textDocument/didChange", json!({"textDocument": {"uri": uri, "version": 3}, "contentChanges": [{"text": text}]}));
+            inc.notify("textDocument/didSave", json!({"textDocument": {"uri": uri}, "text": text}));
+        }
         let mut fresh = Server::start_mem(&texts, ext);
         let replay = json!({"initial": h.initial, "refs_extension": ext, "via": "lsp", "steps": h.steps.iter().map(|s| json!({"key": s.key, "what": s.what, "text": s.text})).collect::<Vec<_>>()});
         let strip = |v: serde_json::Value| -> String {
